@@ -45,6 +45,7 @@ REQUIRED_HOOKS = ("XmlContext.build:cache-hit-equals-rebuild", "XmlContext.find_
 _ctx = None
 _hooked = False
 _hook_violations = []
+FIND_TYPES_SAMPLE = [1]  # C19 raises this: the brute-force scan walks every loaded class
 
 
 class ShadowMismatch(Exception):
@@ -79,8 +80,13 @@ def install_hooks(ctx):
     XC.build = build
     orig_find = XC.find_types
 
+    fcount = [0]
+
     def find_types(self, qname):
         res = orig_find(self, qname)
+        fcount[0] += 1
+        if fcount[0] % FIND_TYPES_SAMPLE[0]:
+            return res
         _ctx.hook("XmlContext.find_types:equals-brute-force")
         from xsdata.models.enums import DataType
 
